@@ -420,6 +420,11 @@ class Gen:
 
     def next_op(self):
         op = self._next_op()
+        # a caller-supplied id that is already in use (any class) - must be refused without side effects
+        if 'node_id' in op and op['op'] != 'make_stale_ifaces' and self.rng.random() > self.p_valid and self.rng.random() < 0.5:
+            ids = sorted(tm_of(self.topo).n)
+            if ids:
+                op['node_id'] = self.rng.choice(ids)
         if op['op'] in ('service_add_interface', 'service_remove_interface', 'connect_interface', 'disconnect_interface',
                         'peer', 'unpeer') and self.rng.random() < 0.4:
             op['cached'] = True
